@@ -113,6 +113,7 @@ class Ctx:
     self.exhaustive = True
     self.deadline = None
     self.overflow = False
+    self.slice = False
 
   @property
   def quick(self):
@@ -331,6 +332,32 @@ def write_evidence(ctx, matched, unmatched, known):
     f.write("\n")
 
 
+def hashseed_crosscheck(ctx):
+  """Re-executes a reduced slice of the exploration in three fresh
+  interpreters with PYTHONHASHSEED 0, 1, 2; the digests of the reached states
+  and violations must be identical (gfapy iterates sets of strings and of
+  Line objects)."""
+  procs = []
+  for seed in ("0", "1", "2"):
+    env = dict(os.environ, PYTHONHASHSEED=seed, GFAMC_NPROC=str(max(2, NPROC // 3)),
+               GFAMC_NOGATE="1")
+    procs.append((seed, subprocess.Popen(
+        [sys.executable, "-m", "gfamc.runner", ctx.pid, "slice"], cwd=VERIF,
+        env=env, stdout=subprocess.PIPE, stderr=subprocess.PIPE, text=True)))
+  digests = {}
+  for seed, p in procs:
+    out, err = p.communicate(timeout=3600)
+    d = [l for l in out.split("\n") if l.startswith("DIGEST ")]
+    digests[seed] = d[0] if d else "no-digest rc={} {}".format(
+        p.returncode, err[-300:])
+  ctx.extra["hashseed_crosschecks"] = digests
+  if len(set(digests.values())) != 1:
+    ctx.violation(mkviolation(
+        "hash-seed-dependent", {"digests": json.dumps(digests, sort_keys=True)},
+        {"kind": "hashseed"}, "identical digests under PYTHONHASHSEED 0,1,2",
+        digests, "PYTHONHASHSEED=1 ./check {} slice".format(ctx.pid)))
+
+
 def setup_env():
   """Make sure the interpreter runs with a fixed hash seed and imports gfapy
   from the tree under test."""
@@ -377,6 +404,21 @@ def main():
       return 1
     print("witness no longer violates clause {}".format(doc["clause"]))
     return 0
+  if args[1] == "slice":
+    # reduced deterministic slice of the exploration, used for the
+    # hash-seed cross-check: prints a digest of states and violations
+    ctx = Ctx(pid, "quick", seed)
+    ctx.slice = True
+    try:
+      mod.run(ctx)
+    finally:
+      if _pool is not None:
+        _pool.terminate()
+    fps = sorted(fingerprint(v["clause"], v["key"]) for v in ctx.violations)
+    print("DIGEST {} states={} violations={}".format(
+        h([sorted(ctx.states), fps, ctx.transitions]), len(ctx.states),
+        len(fps)))
+    return 0
   tier = os.environ.get("VERIF_TIER") or args[1]
   if args[1] in ("quick", "thorough"):
     tier = args[1]
@@ -386,6 +428,8 @@ def main():
   ctx = Ctx(pid, tier, seed)
   try:
     mod.run(ctx)
+    if getattr(mod, "HASHSEED_SLICE", False):
+      hashseed_crosscheck(ctx)
     rc = finish(ctx, mod)
   except BaseException:
     traceback.print_exc()
